@@ -8,7 +8,7 @@
 //!     //@AT <anchor>            following lines (until the next //@ directive) are spliced at the anchor
 //!     //@LOOP <k>               following lines are the loop annotations (invariant/decreases) of loop k
 //!     //@END                    end of the function block
-//! Anchors: entry | before:<call>#<k> | after:<call>#<k> | ret#<k> | loophead:<k> | loopend:<k>
+//! Anchors: entry | exit | before:[<match arm pattern>]<call>#<k> (ordinal counted inside that arm only) | before:<call>#<k> | after:<call>#<k> | ret#<k> | loophead:<k> | loopend:<k>
 //!   <call> is the name of a translated call (h.set_left -> set_left, rotate_left, ...), <k> its ordinal in
 //!   source order within the function.  An anchor that no longer exists is a lost anchor (never an alarm).
 //!
@@ -31,6 +31,11 @@
 //!   R13 `let x: Shared<..>;` (uninitialised) -> `let mut x: Ptr = NULL;`
 //!   R14 TreeBin { root: Atomic::from(r), first: Atomic::from(b), .. } -> h.make_bin(r, b)
 //!   R16 an argument of a heap-mutating call that itself reads the heap is evaluated into a temporary first
+//!   OWN rules (teardown code, templates with //@DIALECT OWN): R17 let-else on a Box's value -> h.as_<kind>(ptr) (the else branch is the
+//!       obligation kind == K); R18 `let _ = e;` -> `e;`; R19 X.into_box() -> h.free(X) / h.free_value(node); R20 the for loop over the
+//!       taken bins -> indexed while loop; R21 slot.load(..) -> slot; R22 match **entry -> match h.kind(entry); R23 unsafe { x.deref() } -> x;
+//!       R24 Guard::unprotected() dropped; R25 obj.F.swap(v) -> h.swap_F(obj, v); R26 drop(tree_bin) -> treebin_drop(h, tree_bin);
+//!       `self` -> `this`
 //!   R15 `let x = loop { .. break v; .. }` / `p = match .. {..}.load(..)`: kept structurally (Verus supports them)
 use crate::emit::{sha256_hex, toks};
 use crate::index::{FnInfo, SrcIndex};
@@ -44,6 +49,8 @@ pub struct Line {
     /// simple statement (anchors before/after refer to it) vs structural line
     pub simple: bool,
     pub marker: Option<String>,
+    /// innermost enclosing statement-level match arm pattern ("" outside any arm): anchors may be scoped to it
+    pub ctx: String,
 }
 
 pub struct Tx<'a> {
@@ -60,6 +67,9 @@ pub struct Tx<'a> {
     pub tmp_count: usize,
     /// VERBATIM dialect (//@FNV): statements are structured for anchoring but every expression is the real text
     pub verbatim: bool,
+    /// OWN rules (teardown code): `self` of a TreeBin/Table method is the arena object `this`
+    pub self_ptr: bool,
+    pub ctx: Vec<String>,
 }
 
 fn path_str(p: &syn::Path) -> String {
@@ -79,9 +89,9 @@ impl<'a> Tx<'a> {
     fn push(&mut self, ind: usize, text: String, src_line: usize, simple: bool) {
         let pre = std::mem::take(&mut self.pre);
         for p in pre {
-            self.lines.push(Line { ind, text: p, src_line, simple: true, marker: None });
+            self.lines.push(Line { ind, text: p, src_line, simple: true, marker: None, ctx: self.ctx.last().cloned().unwrap_or_default() });
         }
-        self.lines.push(Line { ind, text, src_line, simple, marker: None });
+        self.lines.push(Line { ind, text, src_line, simple, marker: None, ctx: self.ctx.last().cloned().unwrap_or_default() });
     }
     /// R16: an argument that itself uses the heap is evaluated into a temporary first (same evaluation order;
     /// needed because the arena is passed as `&mut Heap` where the real code uses interior mutability)
@@ -96,7 +106,7 @@ impl<'a> Tx<'a> {
         }
     }
     fn mark(&mut self, ind: usize, marker: String) {
-        self.lines.push(Line { ind, text: String::new(), src_line: 0, simple: false, marker: Some(marker) });
+        self.lines.push(Line { ind, text: String::new(), src_line: 0, simple: false, marker: Some(marker), ctx: self.ctx.last().cloned().unwrap_or_default() });
     }
 
     /// the pointer denoted by a "node" expression (R2)
@@ -159,6 +169,9 @@ impl<'a> Tx<'a> {
             if let syn::Expr::Path(p) = &*f.base {
                 if p.path.is_ident("self") && self.self_is_bin {
                     return Some(("@bin".into(), fname));
+                }
+                if p.path.is_ident("self") && self.self_ptr {
+                    return Some(("this".into(), fname));
                 }
             }
             if let syn::Expr::Field(inner) = &*f.base {
@@ -365,6 +378,12 @@ impl<'a> Tx<'a> {
             }
         };
         match p.as_str() {
+            "drop" if self.self_ptr => {
+                // R26: dropping an owned TreeBin runs its Drop impl
+                let a = self.expr(&c.args[0]);
+                return format!("treebin_drop(h, {})", a);
+            }
+            "Guard::unprotected" => return "()".into(),
             "Shared::null" | "Atomic::null" => return "NULL".into(),
             "Atomic::from" | "Shared::from" => return self.expr(&c.args[0]),
             "Shared::boxed" => {
@@ -408,6 +427,13 @@ impl<'a> Tx<'a> {
         match name.as_str() {
             "is_null" => return format!("({} == NULL)", self.expr(&m.receiver)),
             "load" => {
+                if self.self_ptr {
+                    if let syn::Expr::Path(pp) = &*m.receiver {
+                        if let Some(i) = pp.path.get_ident() {
+                            return i.to_string(); // R21: a bin slot taken out of the table is already the pointer value
+                        }
+                    }
+                }
                 if let syn::Expr::Match(_) = &*m.receiver {
                     let r = self.expr(&m.receiver);
                     return format!("h.load_ref({})", r);
@@ -432,6 +458,37 @@ impl<'a> Tx<'a> {
                 }
                 self.err(&format!("store to `{}`", toks(&*m.receiver)), m.span());
                 String::new()
+            }
+            "swap" if self.self_ptr => {
+                // R25: <obj>.F.swap(v, ORD, guard) -> h.swap_F(<obj>, v)
+                let v = m.args.first().map(|a| self.expr(a)).unwrap_or_default();
+                if let Some((p, f)) = self.node_field(&m.receiver) {
+                    return format!("h.swap_{}({}, {})", f, p, v);
+                }
+                self.err("swap on an unknown place", m.span());
+                String::new()
+            }
+            "into_box" if self.self_ptr => {
+                // R19: X.into_box() -> h.free(X)   (the Box now owns the object: it is released exactly here)
+                if let Some((p, f)) = self.node_field(&m.receiver) {
+                    if f == "value" {
+                        return format!("h.free_value({})", p);
+                    }
+                    let inner = self.hoist(format!("h.{}({})", f, p));
+                    return format!("h.free({})", inner);
+                }
+                let r = self.expr(&m.receiver);
+                let r = self.hoist(r);
+                format!("h.free({})", r)
+            }
+            "deref" if self.self_ptr && m.args.is_empty() => self.expr(&m.receiver),
+            "drop_fields" | "drop_bins" if self.self_ptr => {
+                let args: Vec<String> = m.args.iter().map(|a| self.expr(a)).collect();
+                let recv = self.expr(&m.receiver);
+                let recv = if recv == "self" { "this".to_string() } else { recv };
+                let mut all = vec!["h".to_string(), recv];
+                all.extend(args);
+                format!("{}({})", name, all.join(", "))
             }
             "borrow" => self.expr(&m.receiver),
             "cmp" => {
@@ -481,6 +538,34 @@ impl<'a> Tx<'a> {
         match s {
             syn::Stmt::Local(l) if self.verbatim => {
                 self.push(ind, toks(l), ln, true);
+            }
+            syn::Stmt::Local(l) if self.self_ptr && matches!(&l.pat, syn::Pat::TupleStruct(_)) => {
+                // R17: let BinEntry::K(x) = <box>.value else { unreachable!() }   ->   let x: Ptr = h.as_K(<ptr>)
+                if let (syn::Pat::TupleStruct(ts), Some(init)) = (&l.pat, &l.init) {
+                    let kind = ts.path.segments.last().map(|s| s.ident.to_string()).unwrap_or_default();
+                    let var = ts.elems.first().map(|e| toks(e).replace("mut ", "")).unwrap_or_default();
+                    let is_mut = ts.elems.first().map(|e| toks(e).starts_with("mut ")).unwrap_or(false);
+                    if let syn::Expr::Field(fe) = &*init.expr {
+                        if toks(&fe.member) == "value" && init.diverge.is_some() {
+                            let b = self.expr(&fe.base);
+                            let b = self.hoist(b);
+                            let k = match kind.as_str() { "Tree" => "tree_bin", "TreeNode" => "tree_node", "Node" => "node", _ => "unknown" };
+                            self.push(ind, format!("let {}{}: Ptr = h.as_{}({});", if is_mut { "mut " } else { "" }, var, k, b), ln, true);
+                            return;
+                        }
+                    }
+                }
+                self.err("destructuring let", l.span());
+            }
+            syn::Stmt::Local(l) if self.self_ptr && matches!(&l.pat, syn::Pat::Wild(_)) => {
+                // R18: `let _ = <expr>;` evaluates the expression and drops the result
+                if let Some(init) = &l.init {
+                    let v = self.expr(&init.expr);
+                    self.push(ind, format!("{};", v), ln, true);
+                }
+            }
+            syn::Stmt::Local(l) if self.self_ptr && l.init.as_ref().map(|i| toks(&*i.expr).contains("Guard::unprotected")).unwrap_or(false) => {
+                // R24: the unprotected guard of teardown code has no arena counterpart
             }
             syn::Stmt::Local(l) => {
                 let (name, ty) = match &l.pat {
@@ -599,6 +684,23 @@ impl<'a> Tx<'a> {
                 self.push(ind, "loop".into(), ln, false);
                 self.loop_body(&l.body, ind, ln);
             }
+            syn::Expr::ForLoop(fl) if self.self_ptr && toks(&*fl.expr).contains("self.bins") => {
+                // R20: for bin in Vec::from(mem::replace(&mut self.bins, ..)) { body }
+                let var = toks(&*fl.pat);
+                self.push(ind, "let bins = h.take_bins(this);".into(), ln, true);
+                self.push(ind, "let mut it: usize = 0;".into(), ln, true);
+                self.push(ind, "while it < bins.len()".into(), ln, false);
+                let k = self.loop_count;
+                self.loop_count += 1;
+                self.mark(ind + 1, format!("loop:{}", k));
+                self.push(ind, "{".into(), 0, false);
+                self.push(ind + 1, format!("let {} = bins[it];", var), ln, true);
+                self.push(ind + 1, "it = it + 1;".into(), ln, true);
+                self.mark(ind + 1, format!("loophead:{}", k));
+                self.block(&fl.body, ind + 1);
+                self.mark(ind + 1, format!("loopend:{}", k));
+                self.push(ind, "}".into(), 0, false);
+            }
             syn::Expr::While(w) => {
                 let c = self.expr(&w.cond);
                 self.push(ind, format!("while {}", c), ln, false);
@@ -606,15 +708,24 @@ impl<'a> Tx<'a> {
             }
             syn::Expr::Match(m) => {
                 // statement-level match: arms as blocks
-                let scrut = self.expr(&m.expr);
+                let mut scrut = self.expr(&m.expr);
+                let on_entry = self.self_ptr && m.arms.iter().any(|a| toks(&a.pat).starts_with("BinEntry::"));
+                if on_entry {
+                    scrut = format!("h.kind({})", scrut); // R22
+                }
                 self.push(ind, format!("match {} {{", scrut), ln, false);
                 for a in &m.arms {
-                    let pat = toks(&a.pat);
+                    let mut pat = toks(&a.pat);
+                    if on_entry {
+                        pat = pat.replace("BinEntry::", "Kind::").replace("(_)", "").replace("Kind::Tree", "Kind::TreeBin").replace("Kind::TreeBinNode", "Kind::TreeNode");
+                    }
                     self.push(ind + 1, format!("{} => {{", pat), a.span().start().line, false);
+                    self.ctx.push(pat.replace(' ', ""));
                     match &*a.body {
                         syn::Expr::Block(b) => self.block(&b.block, ind + 2),
                         other => self.stmt_expr(other, true, ind + 2, a.span().start().line),
                     }
+                    self.ctx.pop();
                     self.push(ind + 1, "}".into(), 0, false);
                 }
                 self.push(ind, "}".into(), 0, false);
@@ -739,6 +850,7 @@ pub fn generate(idx: &SrcIndex, template: &str) -> ArenaOut {
         let fnv = t.strip_prefix("//@FNV ");
         if let Some(key) = t.strip_prefix("//@FN ").or(fnv) {
             let verbatim = fnv.is_some();
+            let own = template.contains("//@DIALECT OWN");
             let key = key.trim().to_string();
             // parse the block
             let mut header = vec![];
@@ -779,11 +891,12 @@ pub fn generate(idx: &SrcIndex, template: &str) -> ArenaOut {
                     errors.push(format!("lost anchor: function {} not found", key));
                 }
                 Some(f) => {
-                    let mut tx = Tx { f, lines: vec![], errors: vec![], aliases: vec![], loop_count: 0, ret_count: 0, self_is_bin: f.owner == "TreeBin", pre: vec![], tmp_count: 0, verbatim };
+                    let mut tx = Tx { f, lines: vec![], errors: vec![], aliases: vec![], loop_count: 0, ret_count: 0, self_is_bin: f.owner == "TreeBin" && !own, pre: vec![], tmp_count: 0, verbatim, self_ptr: own, ctx: vec![] };
                     tx.block(&f.block, 1);
                     errors.extend(tx.errors.iter().cloned());
                     // resolve anchors
                     let mut counts: BTreeMap<String, usize> = BTreeMap::new();
+                    let mut scounts: BTreeMap<(String, String), usize> = BTreeMap::new();
                     let mut before: BTreeMap<usize, Vec<String>> = BTreeMap::new();
                     let mut after: BTreeMap<usize, Vec<String>> = BTreeMap::new();
                     let mut used: Vec<String> = vec![];
@@ -801,6 +914,23 @@ pub fn generate(idx: &SrcIndex, template: &str) -> ArenaOut {
                             continue;
                         }
                         for n in call_names(&l.text) {
+                            // scoped anchors: before:[<arm pattern>]name#k counts only inside that match arm
+                            if !l.ctx.is_empty() {
+                                let sk = scounts.entry((l.ctx.clone(), n.clone())).or_insert(0);
+                                let bks = format!("before:[{}]{}#{}", l.ctx, n, *sk);
+                                let aks = format!("after:[{}]{}#{}", l.ctx, n, *sk);
+                                *sk += 1;
+                                if let Some(v) = at.get(&bks) {
+                                    before.entry(li).or_default().extend(v.iter().cloned());
+                                    used.push(bks);
+                                }
+                                if let Some(v) = at.get(&aks) {
+                                    if l.simple {
+                                        after.entry(li).or_default().extend(v.iter().cloned());
+                                        used.push(aks);
+                                    }
+                                }
+                            }
                             let k = counts.entry(n.clone()).or_insert(0);
                             let bk = format!("before:{}#{}", n, *k);
                             let ak = format!("after:{}#{}", n, *k);
